@@ -127,14 +127,15 @@ def drive(kind, k, p, tg, n, every=1, outcomes=None):
         every = 1 + (n * 7 + k) % 4          # the content is also read only now and then (lazy bookkeeping must not depend on reads)
     arrivals, pos = [], {}
     evals = 0
+    upd = st.update if (n + (k or 0)) % 3 == 1 else None      # a bound method taken before the first update, used throughout
     for i in range(n):
         x, y = {"t": i, "v": i * i}, ("y", i)
         arrivals.append((x, y))
         pos[id(x)] = i
         if i % 5 == 2:
-            st.update(x=x, y=y)          # keyword form (the explainers' own update_storage uses it)
+            (upd or st.update)(x=x, y=y)          # keyword form (the explainers' own update_storage uses it)
         else:
-            st.update(x, y)
+            (upd or st.update)(x, y)
         if i % every == 0 or i == n - 1:
             out = invariant(st, arrivals, pos, cap, tg, kind)
             evals += 1
